@@ -63,6 +63,17 @@ var c10Roots = []struct {
 		B *futil.Name
 		C []futil2.Dur
 	}]()},
+	// composites that differ only below a pointer, side by side in one value
+	{"struct-pointer-composites", reflect.TypeFor[struct {
+		Ints  []*int
+		Strs  []*string
+		Subs  map[string]*futil.Sub
+		Items map[string]*fv1.Item
+		Arr   [2]*futil.Name
+		Arr2  [2]*futil2.Dur
+	}]()},
+	{"[]*string", reflect.TypeFor[[]*string]()},
+	{"map[string]*v1.Item", reflect.TypeFor[map[string]*fv1.Item]()},
 	{"uint64", reflect.TypeFor[uint64]()},
 	{"int64", reflect.TypeFor[int64]()},
 	{"string", reflect.TypeFor[string]()},
@@ -752,7 +763,7 @@ func init() {
 				return &vlitCase{Root: r.Intn(len(c10Roots)), Seed: r.U64(), Depth: 1 + r.Intn(4)}
 			},
 			ShrinkBudget: 6, MaxShrinks: 5,
-			Rule: "random values (depth ≤ 4) of 28 root types built with reflect around fixture named types of three packages, time.Duration and an unnamed struct type: structs with exported and unexported fields, single-level pointers to scalars / strings / named scalars / structs (zero ones included), slices, arrays, maps with string / int / named keys, strings with quotes, newlines, backquotes, NUL and non-UTF-8 bytes, extreme integers, runes, float32/float64 edge values; rendered with snippet.Value through a real writer; compared with the model byte for byte (leaf literals and type texts supplied); oracle: every literal parses as a Go expression, and a sample (quick: 300, thorough: all) is compiled as `var vN T = <literal>` with the registered imports and run, canon.Value of the result compared with canon.Value of the original (nil = empty, omitted fields zero)",
+			Rule: "random values (depth ≤ 4) of 31 root types (one of them holding composites that differ only below a pointer side by side) built with reflect around fixture named types of three packages, time.Duration and an unnamed struct type: structs with exported and unexported fields, single-level pointers to scalars / strings / named scalars / structs (zero ones included), slices, arrays, maps with string / int / named keys, strings with quotes, newlines, backquotes, NUL and non-UTF-8 bytes, extreme integers, runes, float32/float64 edge values; rendered with snippet.Value through a real writer; compared with the model byte for byte (leaf literals and type texts supplied); oracle: every literal parses as a Go expression, and a sample (quick: 300, thorough: all) is compiled as `var vN T = <literal>` with the registered imports and run, canon.Value of the result compared with canon.Value of the original (nil = empty, omitted fields zero)",
 		}
 		return st
 	}
